@@ -255,11 +255,11 @@ define(void)
 	while (t->kind != TNEWLINE && t->kind != TEOF) {
 		if (t->kind == THASHHASH)
 			error(&t->loc, "'##' operator is not yet implemented");
+		if (t->kind == TIDENT && strcmp(t->lit, "__VA_ARGS__") == 0 && !macrovarargs(m))
+			error(&t->loc, "__VA_ARGS__ can only be used in variadic function-like macros");
 		prev = t->kind;
 		t = arrayadd(&repl, sizeof(*t));
 		scan(t);
-		if (t->kind == TIDENT && strcmp(t->lit, "__VA_ARGS__") == 0 && !macrovarargs(m))
-			error(&t->loc, "__VA_ARGS__ can only be used in variadic function-like macros");
 		if (m->kind != MACROFUNC)
 			continue;
 		if (i != -1)
